@@ -80,4 +80,10 @@ PROPS = {
         "trusted": COMMON_TRUST + CRYPTO_TRUST + ["rand/rand_chacha: distinct draws yield distinct values (sampled)"],
         "text": "data-flow structure proved (plaintext only through E / XOR keystream, PHSF without hash, one salt+IV draw per context); leakage and freshness sampled",
     },
+    "C04": {
+        "lean": ["PnaVerif.Props.Consts", "PnaVerif.Props.C04"],
+        "families": ["split"],
+        "trusted": COMMON_TRUST,
+        "text": "size limit, losslessness, termination/rejection proved for all archives and all maxima; split family: every max around the overhead on real archives, parts re-read",
+    },
 }
